@@ -202,9 +202,9 @@ func (o orderedJSON) MarshalJSON() ([]byte, error) {
 			b.WriteByte(',')
 		}
 		k, _ := p[0].(string)
-		b.Write(asciiJSON(k))
+		b.Write(utf8JSON(k))
 		b.WriteByte(':')
-		b.Write(asciiJSON(p[1]))
+		b.Write(utf8JSON(p[1]))
 	}
 	b.WriteByte('}')
 	return b.Bytes(), nil
@@ -220,4 +220,17 @@ func normalize(c obj) obj {
 		fatal("normalize: %v", err)
 	}
 	return out
+}
+
+// utf8JSON marshals v as JSON keeping non-ASCII characters as UTF-8 (for
+// documents handed to the parser: YAML does not accept JSON's surrogate-pair
+// escapes).
+func utf8JSON(v any) []byte {
+	var b bytes.Buffer
+	enc := json.NewEncoder(&b)
+	enc.SetEscapeHTML(false)
+	if err := enc.Encode(v); err != nil {
+		panic(fmt.Sprintf("utf8JSON: %v", err))
+	}
+	return bytes.TrimRight(b.Bytes(), "\n")
 }
